@@ -99,24 +99,34 @@ def run(cx):
         ok = norm(dels[0].targets[0]) == f"result_rules[{v}]" and norm(rms[0]) == f"suffix_symbols.remove({v})" and norm(lp.iter) == "suffixes_to_remove"
     cx.ob("R01a", dels[0] if dels else fp, ok, "a merged suffix is removed from the grammar and from the suffix set together" if ok else
           "removal of a helper symbol's productions and of its suffix-set entry are not paired over the same set of merged suffixes")
+    from sa.guards import alias_env, xnorm, xcanon_facts
+    env = alias_env(fp)
     marks = [c for c in walk_local(fp) if isinstance(c, ast.Call) and call_name(c) == "add" and norm(c.func.value) == "suffixes_to_remove"]
-    ok = len(marks) == 1
+    if len(marks) != 1:
+        raise AnalysisError("R01a", f"{REL}::_factorize_productions", "marking of merged suffixes for removal not recognised")
+    m = marks[0]
+    xS = xnorm(m.args[0], env)
+    # (a) all productions of that suffix are merged back behind the first symbol: a loop over result_rules[S] without
+    #     break/continue, appending tuple([first] + list(rule.production)), in the block that marks S (before the mark)
+    blk = parent(enclosing_stmt(m))
+    stmts_ = blk.body if enclosing_stmt(m) in getattr(blk, "body", []) else blk.orelse
+    exp = [s_ for s_ in stmts_ if isinstance(s_, ast.For) and f"result_rules[{xS}]" in xnorm(s_.iter, env)]
+    if len(exp) != 1:
+        raise AnalysisError("R01a", f"{REL}::_factorize_productions", "loop merging the suffix productions back not recognised")
+    ok = xnorm(exp[0].iter, env) == f"result_rules[{xS}]" and stmts_.index(exp[0]) < stmts_.index(enclosing_stmt(m)) and not any(isinstance(x, (ast.Break, ast.Continue)) for x in ast.walk(exp[0]))
     if ok:
-        m = marks[0]
-        blk = parent(enclosing_stmt(m)).body
-        exp = [s for s in blk if isinstance(s, ast.For) and "suffix_productions" in norm(s.iter)]
-        ok = norm(m.args[0]) == "last_symbol" and len(exp) == 1 and blk.index(exp[0]) < blk.index(enclosing_stmt(m)) and not any(isinstance(x, (ast.Break, ast.Continue)) for x in ast.walk(exp[0]))
-        if ok:
-            ap = [c for c in ast.walk(exp[0]) if isinstance(c, ast.Call) and call_name(c) == "append"]
-            merged = ap[0].args[0] if len(ap) == 1 else None
-            if isinstance(merged, ast.Call) and call_name(merged) == "ProdRule" and len(merged.args) >= 2:
-                merged = merged.args[1]     # the merged production may be wrapped into its ProdRule at once
-            ok = merged is not None and norm(merged) == f"tuple([first_symbol] + list({norm(exp[0].target)}.production))"
-    cx.ob("R01a", marks[0] if marks else fp, ok, "a suffix is marked for removal only after all its productions were merged back behind the first symbol (helper of a nested suffix stays last)" if ok else
+        ap = [c for c in ast.walk(exp[0]) if isinstance(c, ast.Call) and call_name(c) == "append"]
+        merged = ap[0].args[0] if len(ap) == 1 else None
+        if isinstance(merged, ast.Call) and call_name(merged) == "ProdRule" and len(merged.args) >= 2:
+            merged = merged.args[1]     # the merged production may be wrapped into its ProdRule at once
+        first_x = xS[:-3] + "[0]" if xS.endswith("[1]") else None
+        ok = merged is not None and first_x is not None and xnorm(merged, env) == f"tuple([{first_x}] + list({norm(exp[0].target)}.production))"
+    cx.ob("R01a", m, ok, "a suffix is marked for removal only after all its productions were merged back behind the first symbol (helper of a nested suffix stays last)" if ok else
           "partial undo marks / merges suffix productions differently: a helper symbol may stay referenced or lose alternatives")
-    gd = [e for e, pol in (facts(marks[0]) if marks else [])]
-    ok = any(norm(e) == "last_symbol not in suffix_symbols" for e in gd)
-    cx.ob("R01a", marks[0] if marks else fp, ok, "only productions whose last symbol is a helper are expanded" if ok else "expansion is not restricted to productions ending in a helper symbol", stmt="undo guard")
+    # (b) only productions whose last symbol is a helper are expanded
+    cf = xcanon_facts(m, env)
+    ok = ("in", xS, "suffix_symbols", True) in cf
+    cx.ob("R01a", m, ok, "only productions whose last symbol is a helper are expanded" if ok else "expansion is not restricted to productions ending in a helper symbol", stmt="undo guard")
     rets = [r for r in walk_local(fp) if isinstance(r, ast.Return)]
     ok = len(rets) == 1 and norm(rets[0].value) == "(result_rules, suffix_symbols)"
     cx.ob("R01a", rets[0] if rets else fp, ok, "the rewritten grammar and the (updated) suffix set are returned together" if ok else "returned pair altered")
